@@ -101,6 +101,330 @@ func runC09(c *core.Ctx, r *core.Reporter) {
 	c09idx(c, r)
 	c09rel(c, r)
 	c09fmt(c, r)
+	c09div(c, r)
+}
+
+const ruleDiv = "C09.div"
+
+// c09div: integer division and remainder with a divisor that is not a non-zero constant.
+func c09div(c *core.Ctx, r *core.Reporter) {
+	r.Rule(ruleDiv, "every integer / and % whose divisor is not a non-zero constant is reached only through a branch that excludes a zero divisor on every path (d != 0, d > 0, 0 < d, d >= k with k > 0, d < 0 ...), or the divisor is provably positive by construction (len(x)+k, a positive constant times ...): integer division by zero is a Go run-time panic, not a Lisp condition", 20)
+	an := lenflow.New(c)
+	seen := map[string]int{}
+	for _, fn := range c.ModuleFuncs() {
+		if takesTestingT(fn) || fn.Pkg == nil {
+			continue
+		}
+		var g *core.Guards
+		for _, b := range fn.Blocks {
+			for _, in := range b.Instrs {
+				bo, ok := in.(*ssa.BinOp)
+				if !ok || (bo.Op != token.QUO && bo.Op != token.REM) {
+					continue
+				}
+				bt, ok := bo.Y.Type().Underlying().(*types.Basic)
+				if !ok || bt.Info()&types.IsInteger == 0 {
+					continue
+				}
+				if k, isK := bo.Y.(*ssa.Const); isK {
+					if k.Value != nil && constant.Sign(k.Value) != 0 {
+						continue
+					}
+				}
+				key := fmt.Sprintf("%s|%s %s", core.SSAName(fn), rootDesc(bo.X), bo.Op)
+				seen[key]++
+				if n := seen[key]; n > 1 {
+					key = fmt.Sprintf("%s#%d", key, n)
+				}
+				if positiveByConstruction(bo.Y, 0) {
+					r.Hold(ruleDiv, key, c.Pos(bo.Pos()), "divisor is positive by construction")
+					continue
+				}
+				if g == nil {
+					g = core.ComputeGuards(fn, an.NoReturn)
+				}
+				if nonZeroByFacts(bo.Y, g.Facts(bo.Block())) {
+					r.Hold(ruleDiv, key, c.Pos(bo.Pos()), "a dominating comparison excludes a zero divisor")
+					continue
+				}
+				if ex, ok := divExceptions[key]; ok {
+					if w := divNeedsNonZeroGuard[key]; w != "" {
+						// the divisor is a call; one of its operands must be non-zero by the facts that hold here
+						okw := false
+						if dc, isCall := bo.Y.(*ssa.Call); isCall {
+							for _, a := range dc.Call.Args {
+								if nonZeroVal(a, g.Facts(bo.Block()), 0) {
+									okw = true
+								}
+							}
+						}
+						if !okw {
+							r.Violate(ruleDiv, key, c.Pos(bo.Pos()), "the accepted argument needs "+w+" on every path to this site, and there is none")
+							continue
+						}
+					}
+					r.Hold(ruleDiv, key, c.Pos(bo.Pos()), "accepted by reading: "+ex)
+					continue
+				}
+				r.Violate(ruleDiv, key, c.Pos(bo.Pos()), fmt.Sprintf("divisor %s is not shown to be non-zero on every path", rootDesc(bo.Y)))
+			}
+		}
+	}
+}
+
+// positiveByConstruction: len(x)+k with k>0, a positive constant, products/sums of such, conversions.
+func positiveByConstruction(v ssa.Value, depth int) bool {
+	if depth > 6 {
+		return false
+	}
+	switch x := v.(type) {
+	case *ssa.Const:
+		return x.Value != nil && x.Value.Kind() == constant.Int && constant.Sign(x.Value) > 0
+	case *ssa.Convert:
+		// widening or same-width conversion of a positive value of an unsigned or signed type stays positive
+		return positiveByConstruction(x.X, depth+1)
+	case *ssa.ChangeType:
+		return positiveByConstruction(x.X, depth+1)
+	case *ssa.BinOp:
+		switch x.Op {
+		case token.ADD:
+			return (nonNegative(x.X, depth+1) && positiveByConstruction(x.Y, depth+1)) || (positiveByConstruction(x.X, depth+1) && nonNegative(x.Y, depth+1))
+		case token.MUL:
+			return positiveByConstruction(x.X, depth+1) && positiveByConstruction(x.Y, depth+1)
+		case token.SHL:
+			// 1 << n
+			return positiveByConstruction(x.X, depth+1) && false
+		}
+	}
+	return false
+}
+
+func nonNegative(v ssa.Value, depth int) bool {
+	if depth > 6 {
+		return false
+	}
+	switch x := v.(type) {
+	case *ssa.Phi:
+		// every incoming value is non-negative (a value that only flows back into the phi is skipped)
+		for _, e := range x.Edges {
+			if e == ssa.Value(x) {
+				continue
+			}
+			if !nonNegative(e, depth+2) {
+				return false
+			}
+		}
+		return true
+	case *ssa.Const:
+		return x.Value != nil && x.Value.Kind() == constant.Int && constant.Sign(x.Value) >= 0
+	case *ssa.Call:
+		if bi, ok := x.Call.Value.(*ssa.Builtin); ok && (bi.Name() == "len" || bi.Name() == "cap") {
+			return true
+		}
+	case *ssa.Convert:
+		if bt, ok := x.X.Type().Underlying().(*types.Basic); ok && bt.Info()&types.IsUnsigned != 0 {
+			if tt, ok := x.Type().Underlying().(*types.Basic); ok && (tt.Kind() == types.Int || tt.Kind() == types.Int64) && (bt.Kind() == types.Uint8 || bt.Kind() == types.Uint16 || bt.Kind() == types.Uint32) {
+				return true
+			}
+		}
+		return nonNegative(x.X, depth+1) && false
+	case *ssa.BinOp:
+		if x.Op == token.ADD || x.Op == token.MUL {
+			return nonNegative(x.X, depth+1) && nonNegative(x.Y, depth+1)
+		}
+	}
+	return positiveByConstruction(v, depth+1)
+}
+
+// sameIntVal: the same SSA value, or two single-result type assertions of the same operand to the same type.
+func sameIntVal(a, b ssa.Value) bool {
+	if a == b {
+		return true
+	}
+	ta, ok1 := a.(*ssa.TypeAssert)
+	tb, ok2 := b.(*ssa.TypeAssert)
+	return ok1 && ok2 && !ta.CommaOk && !tb.CommaOk && ta.X == tb.X && types.Identical(ta.AssertedType, tb.AssertedType)
+}
+
+// nonZeroByFacts: some comparison of d with a constant that holds on every path excludes d == 0; a negation
+// of such a value and a phi of such values are non-zero as well (SSA values are immutable, so a fact about an
+// operand that holds here held when the phi was formed).
+func nonZeroByFacts(d ssa.Value, facts map[core.EdgeFact]bool) bool {
+	return nonZeroVal(d, facts, 0)
+}
+
+func nonZeroVal(d ssa.Value, facts map[core.EdgeFact]bool, depth int) bool {
+	if depth > 5 {
+		return false
+	}
+	if nonZeroDirect(d, facts) {
+		return true
+	}
+	switch x := d.(type) {
+	case *ssa.Const:
+		return x.Value != nil && x.Value.Kind() == constant.Int && constant.Sign(x.Value) != 0
+	case *ssa.UnOp:
+		if x.Op == token.SUB {
+			return nonZeroVal(x.X, facts, depth+1)
+		}
+	case *ssa.Convert:
+		return nonZeroVal(x.X, facts, depth+1)
+	case *ssa.ChangeType:
+		return nonZeroVal(x.X, facts, depth+1)
+	case *ssa.Phi:
+		for _, e := range x.Edges {
+			if e == ssa.Value(x) {
+				continue
+			}
+			if !nonZeroVal(e, facts, depth+2) {
+				return false
+			}
+		}
+		return true
+	}
+	return false
+}
+
+func nonZeroDirect(d ssa.Value, facts map[core.EdgeFact]bool) bool {
+	strip := func(x ssa.Value) ssa.Value {
+		for {
+			switch y := x.(type) {
+			case *ssa.Convert:
+				x = y.X
+				continue
+			case *ssa.ChangeType:
+				x = y.X
+				continue
+			}
+			return x
+		}
+	}
+	d = strip(d)
+	for f := range facts {
+		bo, ok := f.If.Cond.(*ssa.BinOp)
+		if !ok {
+			continue
+		}
+		op := bo.Op
+		var kc *ssa.Const
+		switch {
+		case sameIntVal(strip(bo.X), d):
+			kc, _ = bo.Y.(*ssa.Const)
+		case sameIntVal(strip(bo.Y), d):
+			kc, _ = bo.X.(*ssa.Const)
+			switch op {
+			case token.LSS:
+				op = token.GTR
+			case token.LEQ:
+				op = token.GEQ
+			case token.GTR:
+				op = token.LSS
+			case token.GEQ:
+				op = token.LEQ
+			}
+		}
+		if kc == nil || kc.Value == nil || kc.Value.Kind() != constant.Int {
+			continue
+		}
+		k, _ := constant.Int64Val(kc.Value)
+		if !f.Branch {
+			switch op {
+			case token.LSS:
+				op = token.GEQ
+			case token.LEQ:
+				op = token.GTR
+			case token.GTR:
+				op = token.LEQ
+			case token.GEQ:
+				op = token.LSS
+			case token.EQL:
+				op = token.NEQ
+			case token.NEQ:
+				op = token.EQL
+			}
+		}
+		switch op {
+		case token.NEQ:
+			if k == 0 {
+				return true
+			}
+		case token.EQL:
+			if k != 0 {
+				return true
+			}
+		case token.GTR:
+			if k >= 0 {
+				return true
+			}
+		case token.GEQ:
+			if k > 0 {
+				return true
+			}
+		case token.LSS:
+			if k <= 0 {
+				return true
+			}
+		case token.LEQ:
+			if k < 0 {
+				return true
+			}
+		}
+	}
+	return false
+}
+
+// nonZeroTestOfParamOrLocal accepts the branch edge on which some integer is known to be non-zero.
+func nonZeroTestOfParamOrLocal(ifi *ssa.If, branch bool) bool {
+	bo, ok := ifi.Cond.(*ssa.BinOp)
+	if !ok {
+		return false
+	}
+	isZero := func(v ssa.Value) bool {
+		k, ok := v.(*ssa.Const)
+		return ok && k.Value != nil && k.Value.Kind() == constant.Int && constant.Sign(k.Value) == 0
+	}
+	if !isZero(bo.X) && !isZero(bo.Y) {
+		return false
+	}
+	switch bo.Op {
+	case token.EQL:
+		return !branch
+	case token.NEQ:
+		return branch
+	}
+	return false
+}
+
+const editorReason = "interactive terminal editor geometry (columns, widths computed from the terminal size and name lengths plus padding), not Lisp input"
+
+var divExceptions = map[string]string{
+	"pkg/cl.(Lcm).Call|*ssa.BinOp /":                       "the divisor is gcd(z, num) and num != 0 here (a zero argument returns early); gcd of a non-zero number is non-zero",
+	"slip.(Array).Adjust|phi:off /":                        "sz is a product of trailing dimensions; if it is zero the total size is zero too and the loop over the elements does not run",
+	"slip.(Array).Adjust|phi:off %":                        "as the division on the line above",
+	"pkg/cl.(ParseInteger).Call|*ssa.BinOp /":              "radix is 10 or a :radix value validated to lie in 2..36 when it was parsed",
+	"pkg/gi.(Encrypt).Call|call %":                         "bsize is the block size of the AES or DES cipher just created (16 or 8)",
+	"pkg/gi.(Encrypt).Call|call %#2":                       "as above",
+	"pkg/gi.(EncryptFile).Call|call %":                     "as above",
+	"pkg/gi.(EncryptFile).Call|call %#2":                   "as above",
+	"pkg/cl.(control).dirJustify|phi:padCnt /":             "segCnt was incremented on the line above (colon case), so it is at least 1",
+	"pkg/cl.(control).dirJustify|phi:padCnt /#2":           "the i-th gap is divided among the remaining gaps: segCnt starts at the number of gaps and is decremented once per gap, so it is at least 1 while 0 < i",
+	"pkg/cl.(control).dirJustify|phi:padCnt /#3":           "with the @ modifier segCnt was incremented once beyond the gaps consumed by the loop, so it is 1 here",
+	"pkg/repl.(editor).displayCompletions|*ssa.BinOp /":   editorReason,
+	"pkg/repl.(editor).displayCompletions|call /":         editorReason,
+	"pkg/repl.(editor).displayHelp|*ssa.Const /":          editorReason,
+	"pkg/repl.(editor).displayHelp|*ssa.BinOp /":          editorReason,
+	"pkg/repl.(editor).displayHelp|*ssa.Const /#2":        editorReason,
+	"pkg/repl.(editor).updateDirty|*ssa.BinOp /":          editorReason,
+	"pkg/repl.(editor).updateDirty|*ssa.BinOp /#2":        editorReason,
+	"pkg/repl.completeOverride|field:index %":             editorReason,
+	"pkg/repl.completeOverride|*ssa.BinOp /":              editorReason,
+	"pkg/repl.completeOverride|field:index %#2":           editorReason,
+	"pkg/repl.help|call /":                                editorReason,
+}
+
+// divNeedsNonZeroGuard: exceptions that rest on a zero test of an operand on every path to the site.
+var divNeedsNonZeroGuard = map[string]string{
+	"pkg/cl.(Lcm).Call|*ssa.BinOp /": "a test that excludes zero for an operand of the gcd call",
 }
 
 // c09fmt: the format engine's argument cursor (same obligations as C15.args, reported under C09).
